@@ -11,8 +11,8 @@ import (
 
 // Limits bounds generated sizes.
 type Limits struct {
-	MaxStr   int // maximum "ordinary" string length
-	MaxElems int // maximum container size
+	MaxStr   int  // maximum "ordinary" string length
+	MaxElems int  // maximum container size
 	BigStr   bool // allow the occasional 256..70000 byte string
 	ASCII    bool // printable ASCII strings only (JSON-representable)
 	Finite   bool // finite floats only (JSON-representable)
